@@ -257,7 +257,7 @@ def h_twice(n, form1, form2, flags):
 def configs(tier, seed):
     cfgs = []
     nmax = 4 if tier == 'quick' else 7
-    flagsets = [(1, 4, 1), (1, 2, 0)] if tier == 'quick' else [(1, 4, 1), (1, 2, 0), (4, 4, 9, 3), (1, 1, 4, 4, 1)]
+    flagsets = [(1, 4, 1), (1, 2, 0), (1, 9, 4, 9)] if tier == 'quick' else [(1, 4, 1), (1, 2, 0), (4, 4, 9, 3), (1, 1, 4, 4, 1)]
     for n in range(0, nmax + 1):
         for form in FORMS:
             for fl in (flagsets if form in 'EF' else flagsets[:1]):
